@@ -3,6 +3,7 @@ package main
 // Wrappers that call the real library in-process, under recover.
 
 import (
+	"math/rand"
 	"encoding/hex"
 	"fmt"
 	"strings"
@@ -21,6 +22,7 @@ func implSat(e string, a []string) (r satRes) {
 		if p := recover(); p != nil {
 			r = satRes{panicv: p}
 		}
+		echoRecord(0, e, a, r.String())
 	}()
 	ok, err := spdxexp.Satisfies(e, a)
 	return satRes{ok: ok, err: err}
@@ -48,6 +50,7 @@ func implExt(e string) (r extRes) {
 		if p := recover(); p != nil {
 			r = extRes{panicv: p}
 		}
+		echoRecord(1, e, nil, r.setString())
 	}()
 	l, err := spdxexp.ExtractLicenses(e)
 	return extRes{list: l, err: err}
@@ -64,6 +67,46 @@ func (r extRes) String() string {
 	}
 }
 
+// setString: the result with the order of the returned strings forgotten (the order is C13's business)
+func (r extRes) setString() string {
+	if r.panicv != nil || r.err != nil {
+		return r.String()
+	}
+	return "ok " + hxl(uniqSorted(r.list))
+}
+
+// ---- fresh-process echo: a sample of the calls a property check makes is repeated, in reverse order, in a process that
+// has done nothing else.  A function of its arguments gives the same answers there.
+type echoCall struct {
+	fn   int
+	expr string
+	list []string
+	isNil bool
+	proj string
+}
+
+var echoLog []echoCall
+var echoSeen int
+var echoOff = true // recording is switched on by main for the (single-threaded) property checks that use the echo
+
+const echoCap = 700
+
+func echoRecord(fn int, e string, l []string, proj string) {
+	if echoOff || len(e) > 4000 || len(l) > 400 {
+		return
+	}
+	echoSeen++
+	c := echoCall{fn: fn, expr: e, list: append([]string(nil), l...), isNil: l == nil, proj: proj}
+	if len(echoLog) < echoCap {
+		echoLog = append(echoLog, c)
+		return
+	}
+	// reservoir sampling keeps a uniform sample of everything the check did
+	if j := echoRng.Intn(echoSeen); j < echoCap {
+		echoLog[j] = c
+	}
+}
+
 type valRes struct {
 	ok      bool
 	invalid []string
@@ -75,6 +118,7 @@ func implVal(l []string) (r valRes) {
 		if p := recover(); p != nil {
 			r = valRes{panicv: p}
 		}
+		echoRecord(2, "", l, r.String())
 	}()
 	ok, inv := spdxexp.ValidateLicenses(l)
 	return valRes{ok: ok, invalid: inv}
@@ -174,3 +218,5 @@ func show(s string) string {
 	}
 	return b.String()
 }
+
+var echoRng = rand.New(rand.NewSource(12345))
